@@ -23,10 +23,11 @@ type Clause struct {
 }
 
 type GhostAssign struct {
-	LHS  *Expr
-	RHS  *Expr
-	Src  string
-	Cond *Expr
+	LHS      *Expr
+	RHS      *Expr
+	Src      string
+	Cond     *Expr
+	SuchThat bool // "lhs :| P": lhs gets an arbitrary value satisfying P (P is evaluated after the update)
 }
 
 type LoopSpec struct {
@@ -289,9 +290,20 @@ func parseGhostAssign(src string) (*GhostAssign, error) {
 		cond = c
 		src = strings.TrimSpace(src[i+6:])
 	}
+	if k := strings.Index(src, ":|"); k >= 0 && !strings.Contains(src[:k], ":=") {
+		l, err := ParseSpec(src[:k])
+		if err != nil {
+			return nil, err
+		}
+		r, err := ParseSpec(src[k+2:])
+		if err != nil {
+			return nil, err
+		}
+		return &GhostAssign{LHS: l, RHS: r, Src: src, Cond: cond, SuchThat: true}, nil
+	}
 	i := strings.Index(src, ":=")
 	if i < 0 {
-		return nil, fmt.Errorf("ghost assignment needs ':=' in %q", src)
+		return nil, fmt.Errorf("ghost assignment needs ':=' or ':|' in %q", src)
 	}
 	l, err := ParseSpec(src[:i])
 	if err != nil {
